@@ -10,6 +10,7 @@ H = {
     'aead': dict(name='aead', sources=['h_aead.c', 'trng_tape.c']),
     'perm': dict(name='perm', sources=['h_perm.c']),
     'sym': dict(name='sym', sources=['h_sym.c']),
+    'cpp': dict(name='cpp', sources=['h_cpp.cpp', 'trng_tape.c'], cxx=True),
     'masked': dict(name='masked', sources=['h_masked.c', 'trng_tape.c']),
 }
 
@@ -47,21 +48,40 @@ def run_matrix(ctx, harnesses, specs, rule, level='exploration', assumptions=(),
     ctx.rule, ctx.level = rule, level
     ctx.assumptions = list(assumptions)
     builds = ctx.build_many(specs)
+    jobs = []
     for b in builds:
         if not b.ok:
             ctx.build_failed(b)
             continue
         for h in harnesses:
-            exe, log = ctx.compile_harness(b, h['name'], h['sources'], cxx=h.get('cxx', False),
-                                           extra=h.get('extra_flags', ()), libs=h.get('libs', ()))
-            if exe is None:
-                if h.get('compile_failure_is_violation'):
-                    ctx.violations.append(core.Violation(ctx.prop, 'harness-compile:%s' % h['name'], {'log': log[-3000:], 'build': b.name}, build=b))
-                    continue
-                raise core.HarnessError('harness %s does not compile on %s:\n%s' % (h['name'], b.name, log[-4000:]))
-            cases = h.get('cases_thorough') if ctx.thorough else h.get('cases_quick')
-            ctx.run_harness(b, exe, h['name'], cases=cases, extra_args=h.get('extra_args', ()), timeout=timeout,
-                            shards=shards or h.get('shards'))
+            jobs.append((b, h))
+    import concurrent.futures as cf
+    done = {}
+
+    def comp(job):
+        b, h = job
+        return ctx.compile_harness(b, h['name'], h['sources'], cxx=h.get('cxx', False),
+                                   extra=h.get('extra_flags', ()), libs=h.get('libs', ()))
+    # the two shared objects (reference, common) are compiled once per build, serially, before fanning out
+    seen = set()
+    for b, h in jobs:
+        if b.name not in seen:
+            seen.add(b.name)
+            done[(b.name, h['name'])] = comp((b, h))
+    with cf.ThreadPoolExecutor(max_workers=8) as ex:
+        rest = [j for j in jobs if (j[0].name, j[1]['name']) not in done]
+        for j, r in zip(rest, ex.map(comp, rest)):
+            done[(j[0].name, j[1]['name'])] = r
+    for b, h in jobs:
+        exe, log = done[(b.name, h['name'])]
+        if exe is None:
+            if h.get('compile_failure_is_violation'):
+                ctx.violations.append(core.Violation(ctx.prop, 'harness-compile:%s' % h['name'], {'log': log[-3000:], 'build': b.name}, build=b))
+                continue
+            raise core.HarnessError('harness %s does not compile on %s:\n%s' % (h['name'], b.name, log[-4000:]))
+        cases = h.get('cases_thorough') if ctx.thorough else h.get('cases_quick')
+        ctx.run_harness(b, exe, h['name'], cases=cases, extra_args=h.get('extra_args', ()), timeout=timeout,
+                        shards=shards or h.get('shards'))
     return ctx.finish()
 
 
